@@ -323,6 +323,12 @@ fn crafted(med: Med, v: u8, reflect: &[Vec<u8>]) -> Vec<Vec<u8>> {
         let c = csum(&q);
         q[2..4].copy_from_slice(&c.to_be_bytes());
         ip.push(ipv4_packet(b4, [224, 0, 0, 1], 2, 7, 1, &q, false));
+        for mrt in [0u8, 1, 255] {
+            let mut q = vec![0x11, mrt, 0, 0, 0, 0, 0, 0];
+            let c = csum(&q);
+            q[2..4].copy_from_slice(&c.to_be_bytes());
+            ip.push(ipv4_packet(b4, [224, 0, 0, 1], 2, 7, 1, &q, false));
+        }
         // ICMP errors quoting A's packet: time exceeded, fragmentation needed, port unreachable, redirect, parameter problem
         for (ty, code, rest) in [(11u8, 0u8, [0u8; 4]), (3, 4, [0, 0, 2, 0]), (3, 3, [0; 4]), (5, 1, [10, 0, 0, 9]), (12, 0, [9, 0, 0, 0])] {
             let mut m = vec![ty, code, 0, 0];
@@ -376,6 +382,21 @@ fn crafted(med: Med, v: u8, reflect: &[Vec<u8>]) -> Vec<Vec<u8>> {
         let mut hbh = vec![58u8, 0, 5, 2, 0, 0, 1, 0];
         hbh.extend_from_slice(&mld);
         ip.push(ipv6_packet(b6, allnodes, 0, 1, &hbh, false));
+        // MLDv2 general queries (28 octets) from a link-local router, maximum response codes 0, 1, the largest, and one in
+        // the floating-point range
+        let ll_b = v6b(Ipv6Address::new(0xfe80, 0, 0, 0, 0, 0, 0, 2));
+        for code in [0u16, 1, 0xffff, 0x8123, 1000] {
+            let mut q = vec![130u8, 0, 0, 0];
+            q.extend_from_slice(&code.to_be_bytes());
+            q.extend_from_slice(&[0, 0]);
+            q.extend_from_slice(&[0; 16]);
+            q.extend_from_slice(&[2, 125, 0, 0]);
+            let c = csum_fold(csum_add(pseudo6(&ll_b, &allnodes, 58, q.len()), &q));
+            q[2..4].copy_from_slice(&c.to_be_bytes());
+            let mut h = vec![58u8, 0, 5, 2, 0, 0, 1, 0];
+            h.extend_from_slice(&q);
+            ip.push(ipv6_packet(ll_b, allnodes, 0, 1, &h, false));
+        }
         // router advertisement: source link-layer address, MTU, prefix information
         let mut ra = vec![134u8, 0, 0, 0, 64, 0, 0x07, 0x08, 0, 0, 0, 0, 0, 0, 0, 0];
         ra.extend_from_slice(&[1, 1, 2, 0, 0, 0, 0, 2]);
